@@ -8,7 +8,7 @@ HARNESS = os.path.join(ROOT, "harness")
 BUILD = os.path.join(ROOT, ".build")
 TARGET = os.path.join(BUILD, "target")
 # second harness crate: tevec with the `polars` feature (cold build ~40-60 s, ~1 GB of artefacts); only the
-# binaries a property lists under `bins_thorough_pl` are built from it, and only in the thorough tier
+# binaries a property lists under `bins_thorough_pl` (historical name) are built from it, in both tiers
 HARNESS_PL = os.path.join(ROOT, "harness-pl")
 TARGET_PL = os.path.join(BUILD, "target-pl")
 _sib = os.path.join(os.path.dirname(ROOT), "repo")
@@ -480,7 +480,8 @@ def check(prop, tier, seed, only=None, only_bin=None):
     # ---- 2. harness from the current /repo tree ------------------------------------
     all_cases, all_aborts, build_fail = [], [], None
     pl_bins = cfg.get("bins_thorough_pl", [])      # built from harness-pl/ (polars feature), thorough tier only
-    bins = (cfg["bins"] + (pl_bins if tier == "thorough" else [])) if only_bin is None else [only_bin]
+    # (the Polars crate builds in under a minute from cold, `./check --setup` pre-builds it: it runs in both tiers)
+    bins = (cfg["bins"] + pl_bins) if only_bin is None else [only_bin]
     modes = [False] + ([True] if tier == "thorough" and cfg.get("release", False) else [])
     for b in bins:
         for rel in modes:
@@ -618,6 +619,11 @@ def setup():
         rc, out = sh(["cargo", "build", "--offline", "--bins"], cwd=HARNESS, timeout=3000,
                      env={"RUSTFLAGS": "--cfg tevec_verif", "CARGO_TARGET_DIR": TARGET})
     print(out[-3000:])
+    if rc != 0: return 1
+    for b in ("c02pl", "c07pl"):
+        rc, out, _ = build_harness(b, hdir=HARNESS_PL, target=TARGET_PL)
+        if rc != 0: break
+    print(out[-2000:])
     return 0 if rc == 0 else 1
 
 def main(argv):
